@@ -82,6 +82,9 @@ func c15Signatures(tier string) []c15sig {
 					nf := append([]string(nil), named...)
 					nf[i] = "f"
 					add(fmt.Sprintf("f@%d", i), nf)
+					nv := append([]string(nil), named...)
+					nv[i] = "v"
+					add(fmt.Sprintf("v@%d", i), nv)
 					np := append([]string(nil), named...)
 					np[i] = "_"
 					np[(i+1)%n] = fmt.Sprintf("param_%d", i)
@@ -114,6 +117,8 @@ func namingClass(n string) string {
 		return "one-blank"
 	case strings.HasPrefix(n, "f@"):
 		return "param-called-f"
+	case strings.HasPrefix(n, "v@"):
+		return "param-called-v"
 	}
 	return n
 }
@@ -167,7 +172,7 @@ func checkC15(tier string) {
 	markSuspects(rep, "C15", cases)
 	res := runE1(cases, "C15", 120, []string{"VERIF_FUEL=2"}, 1)
 	aggregateE1(rep, "C15", cases, res,
-		fmt.Sprintf("%d non-variadic signatures: arity 2..5 x type pattern {all distinct, all int, first two equal} x naming pattern {named, unnamed, all blank, one blank at each position, a parameter called f at each position, blank plus a colliding param_i / innerParam_i name} x 0..3 results; x {Curry, Uncurry, Flip, Apply, Uncurry(Curry), Tuple}", len(sigs)),
+		fmt.Sprintf("%d non-variadic signatures: arity 2..5 x type pattern {all distinct, all int, first two equal} x naming pattern {named, unnamed, all blank, one blank at each position, a parameter called f / v at each position, blank plus a colliding param_i / innerParam_i name} x 0..3 results; x {Curry, Uncurry, Flip, Apply, Uncurry(Curry), Tuple}", len(sigs)),
 		"state = (signature, plugin, argument vector) with all 2^arity vectors of two distinct sentinels per position; transition = one call through the derived wrapper with an instrumented callee: exactly one call, every argument in its proper position, results unchanged; a signature whose generated code does not compile is a violation; non-trivial = vectors checked end to end")
 	rep.Finish()
 }
